@@ -843,3 +843,21 @@ package composite
 //@ props C09
 //@ requires r != nil
 //@ ensures [C09:configured-publishers-replace-the-unfiltered-default] typeis(r.composite.ConnectionPublisher, managed.PublisherChain) && len(as(r.composite.ConnectionPublisher, managed.PublisherChain)) == len(p) && forall j :: 0 <= j && j < len(p) ==> as(r.composite.ConnectionPublisher, managed.PublisherChain)[j] == p[j]
+
+// C04 (every step sees every existing composed resource of the XR with its connection details):
+// the observed state holds one entry per observed resource - whatever its state, a resource that
+// is being deleted included - under its name, with that resource's connection details.
+//@ func composite.AsState
+//@ props C04
+//@ loop range rs
+//@   invariant [C04:every-observed-resource-visited-so-far-is-in-the-state] forall k:Str :: k in visited ==> k in ocds
+//@   invariant [C04:nothing-but-observed-resources-is-in-the-state] forall k:Str :: k in ocds ==> k in rs
+//@ ensures [C04:observed-state-holds-every-observed-resource] err == nil ==> (result != nil && forall k:Str :: (k in rs) ==> k in result.Resources)
+
+// C19 / C07 (what other controllers put on a composed resource survives): the P&T composer writes
+// composed resources through a merge-patching applicator of the cached client - labels it does
+// not render (the in-use marker of a Usage) stay.
+//@ func composite.NewPTComposer
+//@ props C19 C02
+//@ site resource.NewAPIPatchingApplicator($cl) as merge-patching-applicator
+//@   assert [C19:composed-resources-are-merge-patched-by-the-cached-client] $cl == cached
